@@ -304,10 +304,10 @@ def cell_value(c):
 # ---------------------------------------------------------------------------- solver context
 class SolverCtx:
     """one incremental z3 solver whose assertion stack mirrors the path condition of the state being run."""
-    def __init__(s, timeout_ms=30000):
+    def __init__(s, timeout_ms=10000):
         s.sol = z3.Solver(); s.sol.set('timeout', timeout_ms)
         s.stack = []
-        s.time = 0.0; s.queries = 0; s.cache_hits = 0
+        s.time = 0.0; s.queries = 0; s.cache_hits = 0; s.fallbacks = 0; s.fallback_ms = 120000
     def sync(s, pc):
         st = s.stack; n = 0; L = min(len(pc), len(st))
         while n < L and st[n] == pc[n].get_id(): n += 1
@@ -325,7 +325,16 @@ class SolverCtx:
         m = s.sol.model() if r == z3.sat else None
         if extra is not None: s.sol.pop()
         s.time += time.time() - t; s.queries += 1
-        if r == z3.unknown: raise Inconclusive('solver returned unknown: ' + s.sol.reason_unknown())
+        if r == z3.unknown:
+            # the incremental solver core is weaker than z3's one-shot strategy: retry non-incrementally
+            t = time.time()
+            s2 = z3.Solver(); s2.set('timeout', s.fallback_ms)
+            for c in pc: s2.add(c)
+            if extra is not None: s2.add(extra)
+            r = s2.check(); s.fallbacks += 1
+            m = s2.model() if r == z3.sat else None
+            s.time += time.time() - t
+            if r == z3.unknown: raise Inconclusive('solver returned unknown: ' + s2.reason_unknown())
         return m
 
 # ---------------------------------------------------------------------------- engine
